@@ -61,6 +61,20 @@ def coincidence_seeds(rng, nbytes, k=1):
         b = bytearray(rand_bytes(rng, nbytes - 1))
         b.append((-sum(b)) % 256)
         out.append(("bytesum0", bytes(b)))
+        # byte-level patterns: one repeated byte; the same with one byte (first / last / any) zeroed or different; a zero
+        # prefix / suffix of every length class — inputs on which "compare the buffer with itself shifted", "first byte
+        # decides", chunked or vectorised zero tests misfire
+        c = rng.randrange(1, 256)
+        out.append(("bytes-const", bytes([c]) * nbytes))
+        for pos in {0, nbytes - 1, rng.randrange(nbytes), (nbytes // 2) - 1, nbytes // 2}:
+            b = bytearray([c]) * nbytes; b[pos] = 0
+            out.append(("bytes-const-one-zero", bytes(b)))
+            b = bytearray([c]) * nbytes; b[pos] = c ^ rng.randrange(1, 256)
+            out.append(("bytes-const-one-other", bytes(b)))
+        for cut in {1, 3, 4, 7, 8, nbytes // 2, nbytes - 8 if nbytes > 8 else 1, nbytes - 1}:
+            if 0 < cut < nbytes:
+                out.append(("zero-prefix", bytes(cut) + bytes([c]) * (nbytes - cut)))
+                out.append(("zero-suffix", rand_bytes(rng, cut) + bytes(nbytes - cut)))
     return [(c, s_) for c, s_ in out if any(s_)]
 
 _SRCCONST = {}
@@ -2091,6 +2105,61 @@ def tie_C15(ctx):
                 ctx.fail("collision", f"{name}: at the point x={x:016x} with {tag} the real map leaves its own affine law "
                          f"(it is affine on all basis vectors and random pairs), so it is not one-to-one", c,
                          expected=f"{want:016x}", actual=o[4])
+    # --- the whole collection as a map of the pool: for a FIXED timer script (stuckness depends on the times only) one
+    # next_u64 maps the pool it starts from to the value it returns; that map must be one-to-one (theorem
+    # `genEntropy_never_merges`).  The real map is measured on the 64 basis pools + 0, checked for rank 64, and evaluated at
+    # its special points (pre-images of 0 / ones / single bits / the source's own 64-bit constants / fixed points): a guard
+    # anywhere in the collection that keys on such a value shows as a departure from the map's own affine law there, and the
+    # value it returns instead has a second pre-image — a collision on the real code.
+    def ge(tscript, r, pool):
+        return [f"timer 0 {tscript}", "jit 1 0", f"rounds 1 {r}", f"setpool 1 {pool:016x}", "u64 1", "calls 0"]
+    consts = sorted({int.from_bytes(b[:8], "little") for _, b in source_constant_seeds("rand_jitter", 8, limit=400)})[:12]
+    for rep in range(ctx.scale(2, 12)):
+        r = rng.choice([1, 2, 3])
+        tscript = rd_hex(good_readings(rng, 40 + 3 * r))
+        pts = [0] + [1 << i for i in range(64)]
+        outs = ctx.real("next_u64 on a fixed timer script as a map of the initial pool: basis pools", [ge(tscript, r, v) for v in pts])
+        if any(len(o) < 6 or len(o[4]) != 16 or o[5] != outs[0][5] for o in outs):
+            ctx.notes.append("whole-collection map: some basis evaluation failed or consumed a different number of readings")
+            ctx.disagreements.append(dict(family="whole-collection pool map", case=ge(tscript, r, 0), line=4, cmd="u64 1",
+                                          impl=str([o[4:] for o in outs[:2]]), model="a value and a pool-independent number of readings"))
+            continue
+        g0 = int(outs[0][4], 16)
+        lin = [int(o[4], 16) ^ g0 for o in outs[1:]]
+        rank, ker = gf2.rank_and_kernel(lin, 64)
+        ctx.dist[f"rank(whole collection, rounds={r})={rank}"] += 1
+        if ker is not None:
+            a = rng.getrandbits(64)
+            c = ge(tscript, r, a) + ge(tscript, r, a ^ ker)
+            o = ctx.real("collision from a kernel vector of the whole-collection map", [c])[0]
+            if o[4] == o[10]:
+                ctx.fail("collision", "one collection (next_u64 on a fixed timer script) maps two different pools to the same value", c,
+                         expected="different values", actual=o[4])
+            continue
+        targets = [("0", 0), ("ones", MASK64), ("1", 1), ("2^63", 1 << 63), ("2^32", 1 << 32)] + [(f"const {v:x}", v) for v in consts]
+        pre = [(tag, tv, solve(lin, tv ^ g0)) for tag, tv in targets]
+        fx = solve([c ^ (1 << i) for i, c in enumerate(lin)], g0)
+        if fx is not None:
+            pre.append(("fixed point", fx, fx))
+        pre = [(tag, tv, x) for tag, tv, x in pre if x is not None]
+        so = ctx.real("next_u64 at the special points of its own pool map", [ge(tscript, r, x) for _, _, x in pre])
+        for (tag, tv, x), o in zip(pre, so):
+            ctx.dist["whole-collection special point:" + tag.split()[0]] += 1
+            if len(o) < 5 or len(o[4]) != 16:
+                continue
+            z = int(o[4], 16)
+            if z != tv:
+                # the value returned instead has another pre-image under the affine law: a collision if the code follows the law there
+                x2 = solve(lin, z ^ g0)
+                c = ge(tscript, r, x) + (ge(tscript, r, x2) if x2 is not None else [])
+                o2 = ctx.real("second pre-image of the value returned at a special point", [c])[0]
+                if x2 is not None and x2 != x and len(o2) > 10 and o2[10] == o2[4]:
+                    ctx.fail("collision", f"one collection maps two different pools ({x:016x} and {x2:016x}) to the same value: the pool whose "
+                             f"value should be {tag} is merged with another one", c, expected="different values", actual=o2[4])
+                else:
+                    ctx.fail("collision", f"one collection, as a map of the pool, leaves its own affine law at the pool {x:016x} (value {tag} expected "
+                             f"from its 65 basis evaluations): it is not the one-to-one map it is on every basis vector", c,
+                             expected=f"{tv:016x}", actual=o[4])
     # --- the variable-rounds path (timer_stats(true)): the throw-away rounds must not change the fold
     vr, vmeta = [], []
     for _ in range(ctx.scale(60, 800)):
